@@ -3,6 +3,8 @@ package checks
 import (
 	"bytes"
 	"errors"
+	"fmt"
+	"os"
 	"time"
 
 	"verif/ref/liblzma"
@@ -44,6 +46,9 @@ func genL2WCase(r *sim.Rng, tier string, tail bool) *WCase {
 	}
 	if cfg.DictCap != 0 && cfg.DictCap <= 1<<16 && r.Chance(1, 7) && (cfg.Matcher == 0 || cfg.DictCap <= 8192) {
 		pl = dictAwarePayload(r, cfg.DictCap, cfg.BufSize)
+	}
+	if rp, dc, ok := rarePayload(r, tier); ok {
+		pl, cfg.DictCap, cfg.Matcher = rp, dc, 0
 	}
 	n := pl.Len()
 	c := &WCase{Format: "lzma2", L2: &cfg, Payload: pl, Ops: genHistory(r, n, true, []int{65536, 65536 * 2, 2 << 20}, tail)}
@@ -92,7 +97,107 @@ func checkL2Prefix(c *WCase, img, want []byte, what string, x *sim.Ctx) *sim.Vio
 	return nil
 }
 
+// MarginProbe places the most expensive operation a stream can hold right at
+// the compressed-size limit of an LZMA2 chunk. Where that limit falls in terms
+// of input bytes depends on the encoder, so the harness finds it by feedback:
+// Write(prefix) Flush Write(noise(G) + training + long far match + tail) Close
+// is run for a bisection over G until the largest G is known for which the
+// long match still went into the chunk that started after the Flush (read off
+// the chunk headers in the recorded sink image); then every G of a small
+// window above it - the histories in which the encoder has to decide whether
+// the operation still fits - must satisfy the full C08 contract.
+type MarginProbe struct {
+	Seed   uint64 `json:"seed"`
+	Prefix int    `json:"prefix"`
+	// G > 0: a single history (replay of one member of the family)
+	G int `json:"g,omitempty"`
+}
+
+func (p *MarginProbe) history(g int) *WCase {
+	pl := sim.Payload{Kind: "surprise", A: p.Prefix, N: g, Seed: p.Seed}
+	return &WCase{Format: "lzma2", L2: &L2Cfg{NoProps: true, DictCap: 2 << 20, BufSize: 4096}, Payload: pl,
+		Ops: []Op{{K: "w", N: p.Prefix}, {K: "f"}, {K: "w", N: pl.Len() - p.Prefix}, {K: "c"}}, RDict: 2 << 20}
+}
+
+func runMarginProbe(c *WCase, x *sim.Ctx) *sim.Violation {
+	p := c.Probe
+	x.Shape("margin-probe")
+	// u1 runs one member without judging it and returns the uncompressed size
+	// of the first chunk behind the flush point (-1: stored chunk or failure).
+	u1 := func(g int) int {
+		res := runWriter(p.history(g), sim.NewCtx(false))
+		x.Eval(1)
+		if len(res.Calls) < 2 || res.AnyErr || res.AnyPanic {
+			return -1
+		}
+		at, img := res.Calls[1].ImgAfter, res.Sink.Image
+		if at+3 > len(img) || img[at] == 0 {
+			return -1
+		}
+		if img[at] < 0x80 {
+			// stored after all (the compression attempt, which is where the
+			// limit was met, still decided how many bytes the chunk holds)
+			return (int(img[at+1])<<8 | int(img[at+2])) + 1
+		}
+		return (int(img[at]&0x1f)<<16 | int(img[at+1])<<8 | int(img[at+2])) + 1
+	}
+	// one judges a member like any other history
+	one := func(g int) *sim.Violation {
+		sub := sim.NewCtx(false)
+		v := runL2Case(p.history(g), sub)
+		x.Eval(1)
+		x.Step("api", sub.Counters["steps.api"])
+		x.Step("sink", sub.Counters["steps.sink"])
+		if v != nil {
+			nc := *c
+			nc.Probe = &MarginProbe{Seed: p.Seed, Prefix: p.Prefix, G: g}
+			v.Narrow = &nc
+			v.Detail = "margin probe G=" + itoa(g) + ": " + v.Detail
+		}
+		return v
+	}
+	if p.G > 0 {
+		return one(p.G)
+	}
+	inside := func(g, u1 int) bool { return u1 >= g+150*6+160+273 }
+	lo, hi := 60000, 66500 // long match inside the chunk for lo, not for hi
+	if u := u1(lo); u < 0 || !inside(lo, u) {
+		if v := one(lo); v != nil {
+			return v
+		}
+		x.Count("margin-probe-not-applicable", 1)
+		return nil
+	}
+	if u := u1(hi); u >= 0 && inside(hi, u) {
+		x.Count("margin-probe-not-applicable", 1)
+		return nil
+	}
+	for hi-lo > 1 {
+		mid := (lo + hi) / 2
+		if u := u1(mid); u >= 0 && inside(mid, u) {
+			lo = mid
+		} else {
+			hi = mid
+		}
+	}
+	x.Probe("expensive-operation-at-the-compressed-limit")
+	if os.Getenv("VERIF_DEBUG") != "" {
+		for g := lo - 3; g <= lo+12; g++ {
+			fmt.Printf("margin probe: G=%d first chunk after the flush holds %d bytes (long match at %d..%d)\n", g, u1(g), g+150*6+160, g+150*6+160+273)
+		}
+	}
+	for g := lo - 3; g <= lo+12; g++ {
+		if v := one(g); v != nil {
+			return v
+		}
+	}
+	return nil
+}
+
 func runL2Case(c *WCase, x *sim.Ctx) *sim.Violation {
+	if c.Probe != nil {
+		return runMarginProbe(c, x)
+	}
 	res := runWriter(c, x)
 	probeWCase(c, res, x)
 	if len(res.Log) > 0 {
@@ -221,7 +326,12 @@ func init() {
 		Technique: "deterministic simulation of LZMA2 writer call histories over {Write, Flush, Close, calls after Close} with Flush as durability point: the sink image at every Flush return (= crash right after the acknowledged Flush) is decoded by an independent reference decoder and by Reader2",
 		Rule: "case = (Writer2Config, payload recipe, history over Write/Flush/Close + tail after Close, Flush biased around the 64 KiB / 2 MiB chunk limits, after incompressible segments, twice in a row, on a fresh writer); " +
 			"invariants at each Flush return and after Close; non-trivial = non-empty payload; distinct = distinct scenario digests",
-		Gen:    func(r *sim.Rng, tier string, idx int) *WCase { return genL2WCase(r, tier, true) },
+		Gen: func(r *sim.Rng, tier string, idx int) *WCase {
+			if (tier == "quick" && idx%25000 == 777) || (tier == "thorough" && idx%40000 == 777) {
+				return &WCase{Format: "lzma2", Probe: &MarginProbe{Seed: r.Uint64(), Prefix: r.Range(1150000, 1250000)}}
+			}
+			return genL2WCase(r, tier, true)
+		},
 		Run:    runL2Case,
 		Shrink: shrinkWCase,
 		Runs: func(tier string) int {
